@@ -148,9 +148,8 @@ def proc_outcomes(ex):
 
 
 def final(ex):
-    blocked = getattr(ex, "late", set()) if ex.nkilled == 0 else set()
     return ["process %d did not terminate" % p.idx for p in ex.procs
-            if p.status in ("ready", "new") and p.idx not in blocked]
+            if p.status in ("ready", "new")]
 
 
 def classify(msgs):
@@ -252,7 +251,8 @@ def run(ctx):
         "virtual processes run the real settings.py module body / reset / "
         "set_config / merge_json_union on an in-memory FS; scenarios: %s; "
         "crash scenarios: one kill at every primitive boundary and torn "
-        "write prefix (%s) followed by a fresh start; race scenarios: every "
+        "write prefix (%s) followed by a fresh start, and the fresh start "
+        "after the completed operation; race scenarios: every "
         "interleaving of file-system primitives (state-hash pruned BFS); "
         "three racing starts: every schedule with at most %d preemptions. "
         "non-trivial = terminal executions (all processes finished or "
